@@ -65,6 +65,9 @@ Proof.
     rewrite H. cbn. apply snoc_neq.
   - exfalso. destruct (pc s); try done; injection Hs as <-; cbn in Hl; apply snoc_eq_inv in Hl as <-; done.
   - injection Hs as <-. cbn in Hl. by destruct (snoc_neq _ _ Hl).
+  - exfalso. destruct (is_other (cur s)); [|done]. destruct (pc s); repeat case_match; try done; injection Hs as <-; cbn in Hl; by destruct (snoc_neq _ _ Hl).
+  - exfalso. repeat case_match; try done; injection Hs as <-. destruct w; cbn in Hl; by destruct (snoc_neq _ _ Hl).
+  - exfalso. repeat case_match; try done; injection Hs as <-. cbn in Hl. by destruct (snoc_neq _ _ Hl).
 Qed.
 
 (* ---------- (2)(3)(4) safety: every event of every reachable log satisfies its condition ---------- *)
